@@ -53,29 +53,12 @@
 -/
 import BacVerif.Lemmas.C03Def
 import BacVerif.Lemmas.C03Prim
+import BacVerif.Lemmas.C03WFEnv
+import BacVerif.Props.C03Octets
 import BacVerif.Gen.Schemas
 import BacVerif.Props.C02
 namespace BacVerif.C03
 open BacVerif BacVerif.Schema BacVerif.Codec BacVerif.SchemaWF
-
-/-- the decidable LL(1)-style well-formedness of an environment w.r.t. a first/follow table -/
-def WFEnv (env : Env) (I : Table) : Prop := wfEnv env I = true
-
-instance (env : Env) (I : Table) : Decidable (WFEnv env I) := inferInstanceAs (Decidable (_ = true))
-
-theorem wf_entry {env : Env} {I : Table} (hwf : WFEnv env I) {τ : Nat} {d : TyDef}
-    (h : env[τ]? = some d) : look I τ = infoOf env I d ∧ defOK env I τ d = true := by
-  unfold WFEnv wfEnv at hwf
-  simp only [Bool.and_eq_true, List.all_eq_true, List.mem_range] at hwf
-  have hτ : τ < env.size := by
-    rcases Nat.lt_or_ge τ env.size with h' | h'
-    · exact h'
-    · rw [Array.getElem?_eq_none h'] at h; simp at h
-  have := hwf.2 τ hτ
-  unfold entryOK at this
-  rw [h] at this
-  simp only [Bool.and_eq_true, beq_iff_eq] at this
-  exact this
 
 /-- a SequenceOf / ListOf class decodes to the empty list at the end / before a closing tag -/
 theorem listStop_decode (env : Env) (fuel : Nat) (r : Ref) (j : Nat)
@@ -243,18 +226,16 @@ theorem codec_reencode (env : Env) (I : Table) (hwf : WFEnv env I) (τ : Nat)
   obtain ⟨rfl, rfl⟩ := this
   exact ⟨rfl, he⟩
 
-/-- **codec_octets**: composition with C02 — the octets `TagList.encode`
-    produces parse back to the same tag list and decode to the value.  (Side
-    condition: the emitted tags are well-formed in the sense of C02 — tag numbers
-    ≤ 255, data shorter than 2^32 octets; contexts ≤ 254 are part of `WFEnv`,
-    payload sizes belong to the leaves, C01.) -/
+/-- **codec_octets**: composition with C02 — the octets `TagList.encode` produces
+    parse back to the same tag list and decode to the value.  No side condition
+    any more: `encode_tags_wf` (Props/C03Octets) shows the emitted tags are
+    C02-well-formed. -/
 theorem codec_octets (env : Env) (I : Table) (hwf : WFEnv env I) (τ : Nat)
     (v : Val) (hc : conforms env τ v = true) :
     ∃ ts, encodeTy env τ v = .ok ts ∧
-      ((∀ t ∈ ts, C02.WF t) →
-        parseTags (serializeTags ts) = .ok ts ∧ decodePdu env τ ts = .ok v) := by
+      parseTags (serializeTags ts) = .ok ts ∧ decodePdu env τ ts = .ok v := by
   obtain ⟨ts, he, hd⟩ := pdu_roundtrip env I hwf τ v hc
-  exact ⟨ts, he, fun hw => ⟨C02.taglist_roundtrip ts hw, hd⟩⟩
+  exact ⟨ts, he, C02.taglist_roundtrip ts (encode_tags_wf env I hwf τ v hc ts he), hd⟩
 
 /-- **any_cast_roundtrip**: `Any.cast_out(klass)` of what `Any.cast_in(value)` put
     into an (empty) Any is the value, for every class of a well-formed environment;
